@@ -249,6 +249,7 @@ def handcode(F, res):
     res.count("serde-generated functions", len(gen))
     res.floor("serde-generated functions", len(gen), 200)
     bad = {}
+    side_of = {}    # hand-written function -> {("reader" | "writer", wire type)}
     # (a) a derive-generated function calls (or names) a hand-written workspace function directly
     for f in gen:
         for bi, t in mir.calls(f):
@@ -256,6 +257,9 @@ def handcode(F, res):
                 g = F.fns.get(r) if r else None
                 if g is not None and g["crate"].startswith("tx3") and not is_derive(g):
                     bad.setdefault(r, "called from the generated %s" % f["path"].split("::")[-1])
+                    m = re.search(r"(Serialize|Deserialize<'de>) for ([^>]+(?:<[^>]*>)?)>", f["path"])
+                    if m:
+                        side_of.setdefault(r, set()).add(("writer" if m.group(1) == "Serialize" else "reader", m.group(2)))
     # (b) hand-written impls of serde's traits in the crate that defines the wire types
     for i in F.impls:
         tr = i.get("trait") or ""
@@ -301,6 +305,30 @@ def handcode(F, res):
         if g is not None:
             for h in with_closures(F, g):
                 drops += keyed_collapses(F, h)
+        # a conversion the generated reader (writer) of a type passes the value through - `#[serde(from = ..)]`, `into = ..`,
+        # `try_from = ..` - leaves the derive argument intact only if it re-wraps the representation as it is.  One that
+        # rebuilds the value through other workspace code, merges, filters or computes, on one side only, makes the reader
+        # return something else than the writer was given for every value that code changes.
+        conv = None
+        if g is not None and (g.get("impl_trait") or "").startswith(("std::convert::From", "std::convert::TryFrom", "std::convert::Into")) and side_of.get(b):
+            conv = _conversion_work(F, g)
+        if conv:
+            sides = {sd for sd, _ in side_of[b]}
+            wty = sorted(w_ for _, w_ in side_of[b])[0]
+            other = "writer" if "reader" in sides else "reader"
+            mirrored = any(other in {sd for sd, _ in side_of.get(b2, ())} and any(w2 == wty for _, w2 in side_of.get(b2, ())) for b2 in bad if b2 != b)
+            if not mirrored:
+                whats = []
+                for _, wh in conv:
+                    if wh not in whats:
+                        whats.append(wh)
+                res.add([finding("HANDCODE", "%s|one-sided conversion on the wire path" % b, where(g, conv[0][0]),
+                                 "the generated %s of %s passes the value through a hand-written conversion that %s, while the %s handles the stored representation as it is: for every value that conversion changes, decoding does not give back what was encoded" % (
+                                     "/".join(sorted(sides)), wty.split("::")[-1], ", ".join(whats[:4]), other))])
+                continue
+        elif conv is not None:
+            res.add([ok("HANDCODE", "%s|conversion on the wire path re-wraps the representation" % b, where(g), "no call of workspace code, no merging / filtering adaptor, no arithmetic")])
+            continue
         if drops:
             res.add([finding("HANDCODE", "%s|writer re-keys the elements" % b, where(g, drops[0][0]),
                              "hand-written writer on the wire path (%s) collects what it writes into a keyed container under the %s: elements are silently left out of the encoding" % (why, drops[0][1]))])
@@ -309,6 +337,62 @@ def handcode(F, res):
                              "hand-written reader on the wire path (%s) asks the format for `%s`: ciborium (the only TIR format) hands a %s to the visitor from its fixed 4096-byte scratch buffer and *rejects* longer ones, while the writer has no such limit - values above 4096 bytes encode but no longer decode" % (why, hits[0][1], LIMITED[hits[0][1]]))])
         else:
             res.add([assumption("HANDCODE", "%s|hand-written codec code" % b, where(g) if g else "crates/tx3-tir/src", "hand-written code on the wire path (%s): writer/reader agreement for it is not covered by the derive argument (not decided)" % why)])
+
+
+_MERGING = ("fold", "try_fold", "reduce", "sum", "product", "filter", "filter_map", "retain", "take", "skip", "take_while", "skip_while", "map_while",
+            "step_by", "dedup", "dedup_by_key", "sort", "sort_by", "sort_by_key", "sort_unstable", "truncate", "zip", "chain", "rev", "remove", "entry")
+
+
+def _conversion_work(F, g):
+    """[(line, what)] for everything in a From/TryFrom/Into conversion (closures included) that is more than re-wrapping:
+    calls of non-derived workspace functions, merging / filtering / reordering adaptors, arithmetic on the payload"""
+    out = []
+    for h in with_closures(F, g):
+        for bi, t in mir.calls(h):
+            if site_from_expansion(t):
+                continue
+            names = [t.get("resolved"), t.get("callee")] + list(t.get("fnrefs") or [])
+            for r in names:
+                c = F.fns.get(r) if r else None
+                if c is not None and c["crate"].startswith("tx3") and not is_derive(c) and c.get("owner") != g["path"] and not (c.get("owner") or "").startswith(g["path"]) and c["path"] != g["path"]:
+                    out.append((t["line"], "rebuilds it through `%s`" % c["path"].split("::")[-1]))
+            last = (t.get("callee") or "").split("::")[-1]
+            cal = t.get("callee") or ""
+            if last == "retain" and _keeps_nonzero(F, t):
+                # drops what the normal form of the value (C15, I-NORMAL) excludes anyway: the identity on every value the
+                # constructors can build
+                continue
+            if last in _MERGING and (cal.startswith("std::") or cal.startswith("core::") or cal.startswith("alloc::")):
+                out.append((t["line"], "sends it through `%s`" % last))
+            if (t.get("trait") or "").startswith("std::ops::") and (t.get("method") in ("add", "sub", "neg", "mul", "add_assign", "sub_assign")):
+                out.append((t["line"], "computes on it (`%s`)" % t.get("method")))
+        for bi, si, st in mir.stmts(h):
+            rv = st["rv"]
+            if rv["k"] in ("binop", "checked") and rv.get("op") in ("Add", "Sub", "Mul", "Div", "Rem", "AddWithOverflow", "SubWithOverflow", "MulWithOverflow") and not site_from_expansion(st):
+                out.append((st["line"], "computes on it (`%s`)" % rv["op"]))
+            if rv["k"] == "unop" and rv.get("op") == "Neg":
+                out.append((st["line"], "computes on it (negation)"))
+    return out
+
+
+def _keeps_nonzero(F, t):
+    """`retain(|_, v| *v != 0)`: the closure is a single comparison of a value with the literal 0 and nothing else"""
+    cl = [F.fns[c] for c in t.get("fnrefs") or () if c in F.fns]
+    if not cl:
+        return False
+    for c in cl:
+        if any(True for _ in mir.calls(c)):
+            return False
+        cmps = [st["rv"] for _, _, st in mir.stmts(c) if st["rv"]["k"] == "binop"]
+        if len(cmps) != 1 or cmps[0]["op"] != "Ne":
+            return False
+        if not any((mir.op_const(x) or {}).get("int") == 0 for x in (cmps[0]["a"], cmps[0]["b"])):
+            return False
+    return True
+
+
+def site_from_expansion(x):
+    return bool(x.get("exp")) and "derive" in str(x.get("exp"))
 
 
 WIRE_NAMES = set()   # every field / variant name the derived writers emit (filled by wire())
